@@ -16,8 +16,8 @@ ASSUMPTIONS = wa.ASSUMPTIONS + ["atom names are unique inside a generated residu
                                 "comparing (names, name-labelled edges); virtual-site kinds generated: virtual_sitesn funct 1, "
                                 "virtual_sites2, virtual_sites3 funct 1"]
 REAL_VS_STUB = wa.REAL_VS_STUB
-PROBES = wa.PROBES + ["earlier_call_same_topology_paths", "improper_dihedral", "strained_ring", "skip_filter", "unoptimisable_residue", "optimisation_fall_through", "user_template", "user_volume", "resname_clash"]
-PROFILE = {"impossible_p": 0.4, "vs_p": 0.4, "improper_p": 0.6, "strained_p": 0.35,
+PROBES = wa.PROBES + ["earlier_call_same_topology_paths", "improper_dihedral", "strained_ring", "skip_filter", "unoptimisable_residue", "optimisation_fall_through", "user_template", "user_volume", "resname_clash", "unsorted_section_lines", "angles_vs_improper_conflict"]
+PROFILE = {"impossible_p": 0.4, "vs_p": 0.4, "improper_p": 0.6, "strained_p": 0.35, "conflict_p": 0.12,
            "n_restypes": (2, 3), "n_moltypes": (2, 3), "max_atoms": 4, "faults": ["opt", "opt", "step"],
            "max_molecules": 5, "maxres": 5, "box_modes": ["cubic"], "n_entries": (2, 3)}
 
@@ -42,6 +42,10 @@ def gen_job(verif_seed, tier, index):
         for _ in range(t.randint(1, 4)):
             lane += [1] * t.choice([1, 2, 5, 11, 12, 14]) + [0] * t.randint(1, 2)
         job["tape"]["opt"] = lane
+    if g.random() < 0.3:
+        for mt in job["spec"]["moltypes"]:
+            mt["section_shuffle"] = g.getrandbits(20)
+        job["section_shuffle"] = True
     if not job.get("user_templates") and g.random() < 0.12:
         jobgen.add_pre_variant(job, g, "other_geometry")       # same labelled graphs, other parameters, earlier call
     return job
@@ -55,10 +59,14 @@ def _tag(job, res):
         p["user_volume"] = 1
     if job.get("resname_clash"):
         p["resname_clash"] = 1
+    if job.get("section_shuffle"):
+        p["unsorted_section_lines"] = 1
     if any(rt.get("impropers") for rt in job["spec"]["restypes"].values()):
         p["improper_dihedral"] = 1
     if any(rt.get("strained") for rt in job["spec"]["restypes"].values()):
         p["strained_ring"] = 1
+    if any(rt.get("conflict") for rt in job["spec"]["restypes"].values()):
+        p["angles_vs_improper_conflict"] = 1
     if job["opts"].get("skip_filter"):
         p["skip_filter"] = 1
     if any(rt.get("impossible") for rt in job["spec"]["restypes"].values()):
